@@ -1104,6 +1104,10 @@ func (c *Client) findNewPrimary(ctx context.Context, height int64, remove bool) 
 			// remove witnesses marked as bad (the client must do this before we alter the witness slice and change the indexes
 			// of witnesses). Removal is done in descending order
 			if err := c.removeWitnesses(witnessesToRemove); err != nil {
+				// No witness would remain and removeWitnesses removed nothing. The provider that
+				// was just promoted must still not stay in the witness list: a primary cannot
+				// cross-check its own headers.
+				c.witnesses = nil
 				return nil, err
 			}
 
